@@ -625,7 +625,12 @@ def run(run):
                     continue
                 threshold = rng.choice((0, 1, 64, 256, 2 ** 31 - 1))
                 server_id = rng.choice(('-', '', 'srv%04x' %
-                                        rng.getrandbits(16), 'é'))
+                                        rng.getrandbits(16), 'é',
+                                        # ids are hashed exactly as sent, also
+                                        # with blanks at either end; only the
+                                        # one-character id '-' means offline
+                                        ' lead', 'trail ', '\t-', '- ',
+                                        '\xa0x\n', '--', '-x'))
                 auth = rng.random() < 0.5
                 user_handler = any(s[0] == 'P' for s in order) and \
                     rng.random() < 0.3
